@@ -115,6 +115,16 @@ def _images(ctx):
                'number_of_frames_attr': not drop_nof, 'junk_above_bits_stored': junk}, ds, fr
 
 
+class _FsPath:
+    """an os.PathLike that is neither str nor pathlib.Path"""
+
+    def __init__(self, p):
+        self._p = p
+
+    def __fspath__(self):
+        return self._p
+
+
 def _fetch(fn, *a, **k):
     try:
         return ('ok', fn(*a, **k))
@@ -178,6 +188,13 @@ def _check_image(ctx, d, ds, fr, reqs, pending):
         # os.PathLike spelling of the path
         import pathlib
         paths['lazy-pathlike'] = lambda: hd.imread(pathlib.Path(tmp_path), lazy_frame_retrieval=True)
+        # ... and path objects that are os.PathLike without being pathlib.Path (imread documents os.PathLike)
+        if d['idx'] % 2 == 0:
+            paths['lazy-purepath'] = lambda: hd.imread(pathlib.PurePosixPath(tmp_path), lazy_frame_retrieval=True)
+            paths['eager-purepath'] = lambda: hd.imread(pathlib.PurePosixPath(tmp_path))
+        else:
+            paths['lazy-fspath-object'] = lambda: hd.imread(_FsPath(tmp_path), lazy_frame_retrieval=True)
+            paths['eager-fspath-object'] = lambda: hd.imread(_FsPath(tmp_path))
     if d['idx'] % 3 == 1:
         # the raw content of the file as `bytes` (imread documents bytes = file content, not a path)
         paths['lazy-bytes'] = lambda: hd.imread(blob, lazy_frame_retrieval=True)
@@ -1087,6 +1104,9 @@ def _histories(ctx, reqs, pending):
         pd0 = list(im.PixelData)
         cur = np.array(fr)
         ops, impl = [], []
+        # every PixelData value ever assigned stays alive: pydicom recognises a stale array by the IDENTITY of the value object, and
+        # CPython hands the address of a freed bytes object to the next one (an artefact of pydicom's check, not of the library)
+        alive = [im.PixelData]
         d = {'idx': idx, 'frames': n, 'rows': rows, 'cols': cols}
         for step in range(r.randint(3, 9)):
             u = r.random()
@@ -1113,6 +1133,7 @@ def _histories(ctx, reqs, pending):
             else:
                 cur = np.array(nr.random((n, rows, cols)) < 0.5) if r.random() < 0.5 else np.ascontiguousarray(cur[::-1])
                 new = pack_bits(cur.astype(np.uint8).reshape(-1), pad=True)
+                alive.append(new)
                 im['PixelData'].value = new
                 ops.append({'op': 'replace', 'pd': list(new)})
                 ctx.case(path='history/replace', history_step='replace')
